@@ -23,6 +23,8 @@ LEVEL_TEXT = ('Decides from the source, for every node class at once: each concr
               'the same PEG expression; a rule\'s printed header keeps the decorators that affect parsing, its parameters and base; a '
               'grammar\'s printed preamble keeps every directive and every keyword (also when the keyword list wraps). The fixpoint '
               'of whole grammars and railroad track widths are not decided.')
+TECHNIQUE += '; systematic compositions (every wrapper node around every leaf kind, multi-line constants) read back; typed rule parameters, based rules with parameters and regex-valued/None-valued directives in the preamble'
+LEVEL_TEXT += ' Added clauses: parentheses are kept wherever the grouped expression is not an atom of the grammar language; parameter values re-read with their type; `name(params) < Base` header order; None-valued regex directives print as an empty regex; railroad rows are measured in display width.'
 LEVEL_NOTE = ('Trusted: the checker\'s reader of the grammar language (validated on every run by C15: it reads tatsu/_tatsu.ebnf to the '
               'same IR as the shipped generated parser).')
 EXPLANATION = ('Static analysis of /repo sources, TatSu not imported. _pretty methods are interpreted by the whitelisted evaluator on '
